@@ -70,6 +70,8 @@ type Link struct {
 	// hooks, called with l.mu released
 	onWritten []func(n int, rpc *Rpc) // after the n-th envelope (1-based) was accepted
 	onRead    []func(n int, rpc *Rpc) // after the n-th envelope was handed to Read
+	// NoTap: do not keep copies of what is written (very long histories).
+	NoTap bool
 	// WriteFault, if set, may return an error for this write before any effect.
 	WriteFault func(n int, rpc *Rpc) error
 }
@@ -364,7 +366,9 @@ func (l *Link) write(ctx context.Context, rpc *Rpc) error {
 			return err
 		}
 	}
-	l.Tap = append(l.Tap, TapEv{N: l.env.NextEv(), Rpc: cloneRpc(rpc), Orig: rpc})
+	if !l.NoTap {
+		l.Tap = append(l.Tap, TapEv{N: l.env.NextEv(), Rpc: cloneRpc(rpc), Orig: rpc})
+	}
 	pw := &pendingWrite{rpc: carried, done: make(chan struct{})}
 	l.inflight = append(l.inflight, pw)
 	hooks := l.onWritten
